@@ -7,7 +7,15 @@ every call it issues the structural setters (acceptable and unacceptable argumen
 placement call.  The extracted model is fed the same operations and, as oracle, the placements the implementation
 exposed; it predicts every operation's outcome (accepted / refused / rejected / exception class of a call), the hash of
 the full circuit state after every operation and the final state.  The statement itself is ALSO evaluated on the
-implementation's output, independently of the model."""
+implementation's output, independently of the model.
+Stream ep (harness runEP): scenarios through EVERY public placement entry point of Circuit -- place(effort) and the effort overloads
+of placeGlobal / legalize / placeDetailed (all four inline in coloquinte.hpp) and the three (params[, callback]) overloads -- ended
+by return or by an exception at every point where one can arise (rejected effort, rejected parameters, infeasible legalization =
+the second step of place(effort), callback exception at every index), followed by the guarded setters, a further call through any
+entry point and setters again; judged by the statement on the implementation's output, compared operation by operation with a
+copy of the circuit that is not marked busy, and (effort overloads) with the composition of the three MODELLED overloads.
+Static part: tools/circuit_access.py -> coq/CircuitAccess_gen.v -> c10_structural_setters_guarded_in_source (an entry point takes
+the in-use flag only through its scope guard object; a direct write to isInUse_ breaks the obligation)."""
 import json
 from tools import common
 
@@ -184,6 +192,127 @@ def with_throw(line, k):
     return " ".join(t)
 
 
+# ---------------------------------------------------------------- every public placement entry point (stream "ep", harness runEP)
+EP_FORMAT = ("EP entry(0 place(effort),1 placeGlobal(effort),2 legalize(effort),3 placeDetailed(effort),4 placeGlobal(params[,cb]),5 legalize(params[,cb]),"
+             "6 placeDetailed(params[,cb])) arg(the effort for entries 0-3, any int; pvar of mkParams for 4-6) effort(4-6 only) hascb throwk(callback index "
+             "that throws, -1 none) pmode(setters after the call, see BZ) seed entry2 arg2(the further placement call) nrows (minX maxX minY maxY orient)* "
+             "ncells (x y w h orient pol fixed obs)* nnets (npins (cell xo yo)* w2)*")
+ENTRY_NAMES = ["Circuit::place(effort)", "Circuit::placeGlobal(effort)", "Circuit::legalize(effort)", "Circuit::placeDetailed(effort)",
+               "Circuit::placeGlobal(params, callback)", "Circuit::legalize(params, callback)", "Circuit::placeDetailed(params, callback)"]
+SETTER_NAMES = {1: "addNet", 2: "setNets", 3: "setRows", 4: "setupRows", 5: "setCellIsFixed", 6: "setCellIsObstruction", 7: "setCellRowPolarity"}
+
+
+def outcome_words(cls, msg="-"):
+    if cls == 0:
+        return "returned"
+    if cls == 1:
+        return "rejected its effort / parameter set (%s)" % msg
+    if cls >= 100:
+        return "ended by the exception its callback threw at invocation %d" % (cls - 100)
+    return "ended by an exception of the library (%s)" % msg
+
+
+def parse_ep(res):
+    """result line of an EP scenario -> dict, or None when the run has no outcome"""
+    s = [x.strip() for x in res.split(" | ")]
+    if len(s) != 7 or not s[0].startswith("EP "):
+        return None
+    try:
+        a = s[0].split()
+        d = {"cls1": int(a[1]), "msg1": a[2], "inuse1": int(a[3]), "chk1": int(a[4]), "cbbad": int(a[5])}
+        d["cmpcls"], d["cmpeq"] = [int(x) for x in s[1].split()]
+        for name, part in (("post", s[2]), ("restore", s[3]), ("final", s[5])):
+            t = [int(x) for x in part.split()]
+            if len(t) != 1 + 5 * t[0]:
+                return None
+            d[name] = [tuple(t[1 + 5 * i: 6 + 5 * i]) for i in range(t[0])]       # (kind, res, chk, refres, equal)
+        b = s[4].split()
+        d["cls2"], d["msg2"], d["refcls2"], d["inuse2"], d["chk2"], d["eq2"] = int(b[0]), b[1], int(b[2]), int(b[3]), int(b[4]), int(b[5])
+        d["ninv"] = int(s[6])
+    except (ValueError, IndexError):
+        return None
+    return d
+
+
+def statement_on_ep(line, d):
+    """the statement of C10 on what the implementation did in an EP scenario -> (violations, differences): lists of reasons.
+    violations: the statement fails on this input; differences: the entry point is not what the model assumes (no statement failure shown)"""
+    t = line.split()
+    entry, entry2 = int(t[1]), int(t[8])
+    first = "%s had %s" % (ENTRY_NAMES[entry], outcome_words(d["cls1"], d["msg1"]))
+    second = "a further call (%s) had %s" % (ENTRY_NAMES[entry2], outcome_words(d["cls2"], d["msg2"]))
+    why, diff = [], []
+    if d["cbbad"]:
+        why.append("setRows issued inside a callback of %s was not refused (%d invocations)" % (ENTRY_NAMES[entry], d["cbbad"]))
+    if d["chk1"] != 1:
+        why.append("Circuit::check() fails after " + first)
+    if d["chk2"] != 1:
+        why.append("Circuit::check() fails after " + second)
+    for where, ops, after in (("post", d["post"], first), ("restore", d["restore"], first), ("final", d["final"], second)):
+        for kind, res, chk, refres, equal in ops:
+            if kind in GUARDED and res == 1:
+                why.append("%s issued after %s was refused: 'This operation is not allowed when the circuit is being placed'" % (SETTER_NAMES[kind], after))
+            elif res != refres or not equal:
+                diff.append("%s issued after %s: result %d / state %s a copy of the circuit that is not marked busy (result %d)"
+                            % (SETTER_NAMES.get(kind, "setter %d" % kind), after, res, "equal to" if equal else "differs from", refres))
+            if chk != 1:
+                why.append("Circuit::check() fails after %s issued after %s" % (SETTER_NAMES.get(kind, "setter %d" % kind), after))
+    if d["inuse1"]:
+        why.append("the circuit is still marked as being placed after " + first)
+    if d["inuse2"]:
+        why.append("the circuit is still marked as being placed after " + second)
+    if entry <= 3 and (d["cmpcls"] != d["cls1"] or d["cmpeq"] != 1):
+        diff.append("%s is not the composition of the modelled parameter overloads on ColoquinteParameters(effort): outcome class %d vs %d, same final "
+                    "state (all fields and flags): %s" % (ENTRY_NAMES[entry], d["cls1"], d["cmpcls"], bool(d["cmpeq"])))
+    if d["cls2"] != d["refcls2"] or not d["eq2"]:
+        diff.append("%s, where the same call on a copy that is not marked busy had outcome class %d (same state afterwards: %s)" % (second, d["refcls2"], bool(d["eq2"])))
+    return why, diff
+
+
+def execute_ep(harness, base):
+    """counting runs, then one run per callback index for the parameter overloads that take the scripted callback"""
+    impl1, _, _ = common.run_both([harness, "run"], None, base, chunk=40) if base else ([], None, None)
+    derived = []
+    for l, r in zip(base, impl1):
+        d = parse_ep(r)
+        t = l.split()
+        if d is not None and int(t[1]) >= 4 and t[4] == "1" and t[5] == "-1":
+            derived += [with_throw(l, k) for k in range(d["ninv"])]
+    impl2, _, _ = common.run_both([harness, "run"], None, derived, chunk=40) if derived else ([], None, None)
+    return base + derived, impl1 + impl2
+
+
+def evaluate_ep(lines, impl):
+    ofail, diffs, crashed, nontriv = [], [], [], set()
+    dist = {"entry": {}, "outcome_by_entry": {}, "calls_ended_by_an_exception": 0, "place_effort_failed_in_its_second_step": 0,
+            "place_effort_rejected_effort": 0, "guarded_setters_after_a_call": 0, "further_calls_by_entry": {}, "throwing_callback_runs": 0}
+    for l, r in zip(lines, impl):
+        d = parse_ep(r)
+        if d is None:
+            crashed.append((l, r[:200]))
+            continue
+        why, diff = statement_on_ep(l, d)
+        if why:
+            ofail.append((l, r, why))
+        if diff:
+            diffs.append((l, r, diff))
+        t = l.split()
+        e, e2 = ENTRY_NAMES[int(t[1])], ENTRY_NAMES[int(t[8])]
+        ck = "callback threw" if d["cls1"] >= 100 else ["returned", "effort / parameters rejected", "exception of the library"][d["cls1"]]
+        dist["entry"][e] = dist["entry"].get(e, 0) + 1
+        dist["outcome_by_entry"].setdefault(e, {})
+        dist["outcome_by_entry"][e][ck] = dist["outcome_by_entry"][e].get(ck, 0) + 1
+        dist["further_calls_by_entry"][e2] = dist["further_calls_by_entry"].get(e2, 0) + 1
+        dist["calls_ended_by_an_exception"] += (d["cls1"] != 0) + (d["cls2"] != 0)
+        dist["place_effort_failed_in_its_second_step"] += t[1] == "0" and d["cls1"] == 2 and d["msg1"].startswith("Not_all_cells")
+        dist["place_effort_rejected_effort"] += t[1] == "0" and d["cls1"] == 1
+        dist["guarded_setters_after_a_call"] += sum(1 for ops in (d["post"], d["restore"], d["final"]) for o in ops if o[0] in GUARDED)
+        dist["throwing_callback_runs"] += d["cls1"] >= 100
+        if d["cls1"] != 0 or int(t[1]) <= 3:
+            nontriv.add(l)
+    return ofail, diffs, crashed, nontriv, dist
+
+
 def execute(ctx, harness, driver, base):
     """phase 1: counting runs; phase 2: one run per callback index; model on every trace"""
     impl1, _, _ = common.run_both([harness, "run"], None, base, chunk=40)
@@ -323,7 +452,31 @@ def run(ctx):
     for l, obs, why in ofail[:3]:
         ctx.violation("Circuit placement call / setter protocol of /repo violates C10: " + "; ".join(why[:3]),
                       {"case": l, "format": FORMAT, "why": why[:10], "implementation_observation": obs[:3000]})
-    if not ofail:
+    # EVERY public placement entry point of Circuit (the effort overloads and place(effort) are inline in coloquinte.hpp), ended by return or by an
+    # exception at every possible point, followed by the guarded setters, a further call through any entry point and setters again
+    nep = 600 if ctx.quick else 9000
+    ep_base = common.corpus("C10", ("EP ",))
+    for s in seeds:
+        ep_base += common.harness_gen(harness, ["ep", s + 13, nep // len(seeds)])
+    ep_lines, ep_impl = execute_ep(harness, ep_base)
+    ep_fail, ep_diffs, ep_crashed, ep_nontriv, ep_dist = evaluate_ep(ep_lines, ep_impl)
+    seen_ep = set()
+    for l, r, why in ep_fail:
+        key = (l.split()[1], why[0].split(" issued after ")[-1][:60])
+        if key in seen_ep or len(seen_ep) >= 3:
+            continue
+        seen_ep.add(key)
+        ctx.violation("a public placement entry point of Circuit violates C10: " + "; ".join(why[:3]),
+                      {"case": l, "format": EP_FORMAT, "why": why[:12], "implementation_observation": r[:3000], "scenarios_failing": len(ep_fail)})
+    if not ep_fail and not ofail and ep_diffs:
+        l, r, diff = ep_diffs[0]
+        ctx.violation("a public placement entry point of Circuit is not what coq/Api.v assumes (%d of %d entry-point scenarios): %s; no scenario violating C10 found"
+                      % (len(ep_diffs), len(ep_lines), diff[0]),
+                      {"broken": "correspondence of coq/Api.v (three modelled entry points) with the seven public placement entry points of Circuit",
+                       "first": {"case": l, "format": EP_FORMAT, "differences": diff[:6], "implementation_observation": r[:2000]}}, found_input=False)
+    crashed = crashed + ep_crashed
+    ofail_all = ofail + ep_fail
+    if not ofail_all:
         if mism:
             ctx.violation("correspondence Api.v <-> coloquinte.cpp / place_global.cpp / place_detailed.cpp broken (%d of %d scenario runs differ); "
                           "no scenario violating C10 found" % (len(mism), len(lines)),
@@ -334,15 +487,19 @@ def run(ctx):
             ctx.violation("tools/circuit_access.py cannot translate the tree under check (%s): c10_structural_setters_guarded_in_source is not established; no scenario "
                           "violating C10 found" % terr[:300],
                           {"broken": "tools/circuit_access.py -> coq/CircuitAccess_gen.v -> c10_structural_setters_guarded_in_source", "detail": terr}, found_input=False)
-        elif not proof_ok:
-            badm = circuit_access.offending_methods(methods)
-            if badm:
-                ctx.violation("theorem c10_structural_setters_guarded_in_source does not hold for the table generated from this tree: %s; no generated scenario violates C10"
-                              % badm[0], {"broken": "c10_structural_setters_guarded_in_source (Properties_C10.v) over coq/CircuitAccess_gen.v", "offending_methods": badm[:20],
-                                          "detail": proof}, found_input=False)
-            else:
-                ctx.violation("proof obligations of Properties_C10.v do not check", {"broken": "Properties_C10.v", "detail": proof}, found_input=False)
-    causes, known_causes, unknown_causes = no_outcome_causes(harness, crashed)
+        elif not proof_ok and not circuit_access.offending_methods(methods):
+            ctx.violation("proof obligations of Properties_C10.v do not check", {"broken": "Properties_C10.v", "detail": proof}, found_input=False)
+    # the static obligation is reported whether or not a scenario fails as well (it names the member function and the line)
+    if terr is None and not proof_ok:
+        badm = circuit_access.offending_methods(methods)
+        if badm:
+            ctx.violation("theorem c10_structural_setters_guarded_in_source does not hold for the table generated from this tree: %s; %s"
+                          % (badm[0], "see the failing scenario above" if ofail_all else "no generated scenario violates C10"),
+                          {"broken": "c10_structural_setters_guarded_in_source (Properties_C10.v) over coq/CircuitAccess_gen.v", "offending_methods": badm[:20],
+                           "detail": proof}, found_input=False)
+    causes, known_causes, unknown_causes = no_outcome_causes(harness, crashed, has_outcome=lambda o: split3(o) is not None or parse_ep(o) is not None)
+    nbz_lines = len(lines)
+    lines = lines + ep_lines           # the no-outcome limit and the evidence count both streams
     if unknown_causes:
         ctx.violation("%d of %d scenario runs ended without an outcome (abort / crash inside a placement call) for a cause that is NOT one of the known out-of-domain "
                       "assertions (%s): first cause: %s" % (len(unknown_causes), len(lines), "; ".join(KNOWN_OUT_OF_DOMAIN_ASSERTS), unknown_causes[0][1]),
@@ -360,8 +517,24 @@ def run(ctx):
                     "c10_structural_setters_guarded_in_source is about; line order stands for execution order inside a setter (straight-line code)",
                     "what the algorithms compute is not modelled: the model is run with the placements the implementation exposed (theorems hold for every oracle)",
                     "addNet/setNets argument tests (sizes, limits start at 0 and sorted, pins on existing cells) are modelled and exercised with acceptable and unacceptable arguments"],
-                "evaluations": len(lines), "distinct_nontrivial": len(nontriv),
-                "rule": "stream bo (800 instances in the quick tier): the same scenarios on circuits whose movable unturned cells carry the SPECIAL orientation values INVALID (8) / UNKNOWN (9) "
+                "evaluations": len(lines), "distinct_nontrivial": len(nontriv) + len(ep_nontriv),
+                "entry_point_stream": {"scenario_runs": len(ep_lines), "instances": len(ep_base), "distinct_nontrivial": len(ep_nontriv), "distribution": ep_dist,
+                                       "scenarios_violating_statement": len(ep_fail), "scenarios_differing_from_reference": len(ep_diffs),
+                                       "no_outcome_runs": len(ep_crashed), "sample": ep_lines[0][:600] if ep_lines else ""},
+                "rule": "stream ep (600 instances in the quick tier + one run per callback index): a scenario through EVERY public placement entry point of Circuit -- "
+                        "place(effort) 30 %, placeGlobal(effort) / legalize(effort) / placeDetailed(effort) 10 % each (all four are INLINE in coloquinte.hpp), the three "
+                        "(params[, callback]) overloads 40 % (80 % with a callback that tries setRows at every invocation, which must be refused; one run per callback "
+                        "index with the callback throwing there) -- ended by return or by an exception at every point where one can arise: rejected effort (0, 10, -1, "
+                        "100, INT_MIN: 40 % of the effort calls; thrown before the first step), rejected parameter set, infeasible legalization (40 % of the circuits: a "
+                        "movable cell wider than every row / over-full rows) which for place(effort) is the SECOND step after a completed global placement, callback "
+                        "exception; then the seven guarded setters with acceptable and unacceptable arguments (none may be refused as 'being placed', Circuit::check() "
+                        "must pass), the four structural setters restoring the original rows / fixed / obstruction / polarity values, a FURTHER placement call through "
+                        "any of the seven entry points (30 % place(effort)), and the setters again.  Judged by the statement alone (refusals, check(), in-use flag); in "
+                        "addition every operation is repeated on a reference copy of the circuit taken right after the first call with the in-use flag cleared (same "
+                        "result and same full state expected), and entries 0-3 are compared with the composition of the MODELLED parameter overloads on "
+                        "ColoquinteParameters(effort) run on a copy taken before the call (same outcome class, same full state incl. flags): that is how the four "
+                        "effort overloads are tied to the three entry points of coq/Api.v.  EP non-trivial = an effort overload, or the call ended by an exception. "
+                        "stream bo (800 instances in the quick tier): the same scenarios on circuits whose movable unturned cells carry the SPECIAL orientation values INVALID (8) / UNKNOWN (9) "
                         "(each such cell with probability 1/2, at least one; setCellOrientation / setSolution accept every enum value), 40 % with one movable cell wider than every row, "
                         "30 % over-full (row-high movable cells as wide as the widest row, one more than there are rows), 30 % as generated; stage legalize 45 % / placeDetailed 45 % / "
                         "placeGlobal 10 %; 'a failed legalization left the placement as it was' is evaluated on x, y AND orientation of every cell for EVERY placement call of a "
@@ -381,19 +554,31 @@ def run(ctx):
                                "of_unknown_cause": len(unknown_causes), "first_cases": [c[0][:300] for c in crashed[:3]],
                                "rule": "every run without an outcome is run again alone to read its assertion text; a cause outside the known out-of-domain "
                                        "assertions is reported as broken correspondence; more than limit_fraction of the runs without outcome fails the run"},
-                "samples": [lines[0][:600], lines[len(lines) // 2][:600], lines[-1][:600]] if lines else [],
-                "model_vs_impl_differences": len(mism), "impl_outputs_violating_statement": len(ofail)})
+                "samples": [lines[0][:600], lines[nbz_lines // 2][:600], lines[-1][:600]] if lines else [],
+                "model_vs_impl_differences": len(mism) + len(ep_diffs), "impl_outputs_violating_statement": len(ofail) + len(ep_fail)})
     return ctx.finish(LEVEL, cov, ["model tied to the code by exact comparison (outcome of every operation, hash of the full circuit state after every operation, final state) on the scenario runs of this check",
                                    "the entry points are modelled after the F9 repair (scope guard restoring the previous flag value)",
                                    "a placement call issued from a callback is modelled without a callback of its own in the tie (the theorems allow one)",
+                                   "coq/Api.v models the three (params, callback) entry points; the four inline effort overloads (place(effort), placeGlobal/legalize/placeDetailed(effort)) are tied to them by execution only: same outcome and same full circuit state as the composition of the modelled overloads on ColoquinteParameters(effort) (stream ep), and by the static table (an entry point writes nothing but the scope guard on isInUse_ and calls only entry points)",
                                    "'a failed legalization leaves the placement as it was' (exception classes ELegalizer / EParams only) and 'the in-use flag is cleared' hold by the shape of the model (the algorithm oracles cannot write to the circuit or touch inUse): for the code they rest on this tie and on C03's access-table theorem",
                                    "runs without an outcome (abort / crash) are tolerated up to 2 % of the scenario runs (no_outcome_runs); an instance whose counting run crashes contributes no throwing runs, so exhaustive_per_instance excludes the instances that abort"])
 
 
 def replay(ctx, path):
     r = json.load(open(path))["replay"]
-    case = r.get("case") or r["first_difference"]["case"]
+    case = r.get("case") or (r.get("first") or r.get("first_difference"))["case"]
     harness = common.build_harness("api")
+    if case.startswith("EP "):
+        lines, impl = execute_ep(harness, [case])
+        ep_fail, ep_diffs, ep_crashed, _, _ = evaluate_ep(lines, impl)
+        for l, i in zip(lines, impl):
+            print("case :", l[:300])
+            print("impl :", i[:400])
+        for l, r_, why in ep_fail:
+            print("statement violated:", why[:6])
+        for l, r_, diff in ep_diffs[:3]:
+            print("differs from the reference:", diff[:3])
+        return 1 if (ep_fail or ep_diffs or ep_crashed) else 0
     driver = common.build_driver("api")
     lines, impl, model = execute(ctx, harness, driver, [case])
     mism, ofail, crashed, _, _ = evaluate(lines, impl, model)
